@@ -35,6 +35,15 @@ type C17Case struct {
 	// popped and refilled as fast as the pool can), then max requests must still be able to
 	// be inside their rule together.
 	Hammer *C17Hammer `json:"hammer,omitempty"`
+	// Slow: max requests stay inside their rule for HoldMs of wall-clock time while Waiters more
+	// requests wait for an instance; then all are let go.
+	Slow *C17Slow `json:"slow,omitempty"`
+}
+
+type C17Slow struct {
+	HoldMs  int `json:"hold_ms"`
+	Waiters int `json:"waiters"`
+	Method  int `json:"method"`
 }
 
 type C17Hammer struct {
@@ -128,7 +137,7 @@ end
 func init() {
 	register(&Prop{
 		ID:   "C17",
-		Rule: "request histories on pools of size (1,2),(1,3),(2,3),(2,4),(3,6): start request (healthy / rule error / panicking injected function / type fault outside the self-recovering constructs / missing name / store into a nil map / wrong key kind / out-of-range element store and read / an integer literal key on a uint8-keyed map (kind 13) / a healthy request whose data map also holds a nil value and an empty key (kind 12) / a request with a nil data map (kind 11, fails on the missing names without parking) / a failing child of the conc block in which every request parks (kind 10) / a healthy request that injects its own function, map and slice under names and Go types of values the pool was constructed with; every request also binds a local, writes its own map and slice, reads the slice through a variable index and passes an expression over its own map and slice elements to a comparing function) through any of the 24 pool execute methods, release the k-th outstanding request; up to max+4 outstanding, every request parks inside its rule on a Hold gate keyed by its id; oracle after every step: the number of requests parked inside rules equals min(max, outstanding) within the bound (waiters proceed, nothing lost) and never exceeds max, every finished request returned its own id (two in-flight requests on one instance would overwrite each other's injected object), a request never fails because the pool is busy, and after the history max requests park simultaneously again. 8% of the cases (1% in the thorough tier) are hand-over storms instead: max-1 requests stay inside their rule, the last instance is passed along a chain of 100-800 (thorough 1500) requests, each issued a generated number of spin iterations after its predecessor is let go (at most four storms at a time across the shard processes); every next request must enter its rule within the hang bound after the previous one returned and must return its own id. 3% of the cases (1% in the thorough tier) are hammers: 4-32 clients issue 100-600 (thorough 1500) short ungated requests each, at most max may be inside a rule at any time, every request returns its own id, and afterwards max requests must be inside their rule together, three times in a row; pool sizes include (40,41), (33,34), (2,65), (31,33). Non-trivial: at some point more than max requests are outstanding and a failing or panicking request finished before the final probe, or a storm of >= 300 hand-overs; distinct by case hash",
+		Rule: "request histories on pools of size (1,2),(1,3),(2,3),(2,4),(3,6): start request (healthy / rule error / panicking injected function / type fault outside the self-recovering constructs / missing name / store into a nil map / wrong key kind / out-of-range element store and read / an integer literal key on a uint8-keyed map (kind 13) / a healthy request whose data map also holds a nil value and an empty key (kind 12) / a request with a nil data map (kind 11, fails on the missing names without parking) / a failing child of the conc block in which every request parks (kind 10) / a healthy request that injects its own function, map and slice under names and Go types of values the pool was constructed with; every request also binds a local, writes its own map and slice, reads the slice through a variable index and passes an expression over its own map and slice elements to a comparing function) through any of the 24 pool execute methods, release the k-th outstanding request; up to max+4 outstanding, every request parks inside its rule on a Hold gate keyed by its id; oracle after every step: the number of requests parked inside rules equals min(max, outstanding) within the bound (waiters proceed, nothing lost) and never exceeds max, every finished request returned its own id (two in-flight requests on one instance would overwrite each other's injected object), a request never fails because the pool is busy, and after the history max requests park simultaneously again. 8% of the cases (1% in the thorough tier) are hand-over storms instead: max-1 requests stay inside their rule, the last instance is passed along a chain of 100-800 (thorough 1500) requests, each issued a generated number of spin iterations after its predecessor is let go (at most four storms at a time across the shard processes); every next request must enter its rule within the hang bound after the previous one returned and must return its own id. 3% of the cases (1% in the thorough tier) are hammers: 4-32 clients issue 100-600 (thorough 1500) short ungated requests each, at most max may be inside a rule at any time, every request returns its own id, and afterwards max requests must be inside their rule together, three times in a row; pool sizes include (40,41), (33,34), (2,65), (31,33). 1% of the cases (0.3% in the thorough tier) are long saturations: max requests stay inside their rule for 2.2-7.5 s of wall-clock time while 1-3 more requests wait; no waiter may start or fail meanwhile, afterwards every request returns its own id, the waiters proceed and max requests park together again. Non-trivial: at some point more than max requests are outstanding and a failing or panicking request finished before the final probe, or a storm of >= 300 hand-overs, or a hammer, or a long saturation; distinct by case hash",
 		New:  func() interface{} { return &C17Case{} },
 		Gen: func(t *rapid.T) interface{} {
 			c := &C17Case{}
@@ -153,6 +162,13 @@ func init() {
 					// large pools: fewer short requests, the waves of max simultaneous requests matter
 					c.Hammer.Reqs = uni(t, "hammer_reqs_big", 5, 60)
 				}
+				return c
+			}
+			if pct(t, "slow", 1) && (!thorough() || pct(t, "slow_thorough", 30)) {
+				sizes := [][2]int64{{1, 2}, {1, 3}, {2, 3}}
+				sz := sizes[uni(t, "slow_size", 0, 2)]
+				c.PoolMin, c.PoolMax = sz[0], sz[1]
+				c.Slow = &C17Slow{HoldMs: uni(t, "slow_hold_ms", 2200, 7500), Waiters: uni(t, "slow_waiters", 1, 3), Method: uni(t, "slow_m", 0, 23)}
 				return c
 			}
 			stormPct := 8
@@ -199,6 +215,10 @@ func init() {
 			}
 			if c.Hammer != nil {
 				checkC17Hammer(c, x)
+				return
+			}
+			if c.Slow != nil {
+				checkC17Slow(c, x)
 				return
 			}
 			h := newPoolHarness()
@@ -563,6 +583,147 @@ func checkC17Storm(c *C17Case, x *Ctx) {
 	x.Class("storm-completed")
 	if st.N >= 300 {
 		x.NonTrivial()
+	}
+}
+
+// checkC17Slow: the pool stays saturated for seconds of wall-clock time. max requests sit inside
+// their rule, Waiters more requests wait for an instance the whole time; none of them may start
+// before an instance is handed back, all of them must run and return their own id afterwards, and
+// the pool serves max simultaneous requests again.
+func checkC17Slow(c *C17Case, x *Ctx) {
+	sl := c.Slow
+	max := int(c.PoolMax)
+	total := max + sl.Waiters
+	slots := make([]*c17Slot, total+max)
+	for i := range slots {
+		slots[i] = &c17Slot{done: make(chan gx.Result, 1)}
+	}
+	var inflight, maxIn int64
+	apis := map[string]interface{}{"hold": func(id int64) {
+		n := atomic.AddInt64(&inflight, 1)
+		for {
+			old := atomic.LoadInt64(&maxIn)
+			if n <= old || atomic.CompareAndSwapInt64(&maxIn, old, n) {
+				break
+			}
+		}
+		s := slots[id]
+		atomic.StoreInt32(&s.entered, 1)
+		for atomic.LoadInt32(&s.release) == 0 {
+			time.Sleep(200 * time.Microsecond)
+		}
+		atomic.AddInt64(&inflight, -1)
+	}}
+	p, err := engine.NewGenginePool(c.PoolMin, c.PoolMax, c.EM, c17StormRules, apis)
+	if err != nil {
+		x.Violation("setup", "NewGenginePool: %v", err)
+		return
+	}
+	defer func() {
+		for _, s := range slots {
+			atomic.StoreInt32(&s.release, 1)
+		}
+	}()
+	methods := gx.MethodNames(true)
+	call := fullCall(methods[sl.Method%len(methods)], []string{"hold", "aux"}, 0)
+	x.Class("slow-hold")
+	x.Class(fmt.Sprintf("slow-hold-seconds:%d", sl.HoldMs/1000))
+	x.NonTrivial()
+	exec := func(id int) {
+		data := map[string]interface{}{"who": &Payload{Id: int64(id), Sl: []int64{0, int64(id)}}}
+		slots[id].done <- gx.OnPool(p, call, data, &engine.Stag{})
+	}
+	for id := 0; id < max; id++ {
+		go exec(id)
+	}
+	for id := 0; id < max; id++ {
+		if !c17Await(&slots[id].entered, x) {
+			x.Violation("slow-setup", "a fresh pool (%d,%d) did not run %d requests simultaneously", c.PoolMin, c.PoolMax, c.PoolMax)
+			return
+		}
+	}
+	for id := max; id < total; id++ {
+		go exec(id)
+	}
+	deadline := time.Now().Add(time.Duration(sl.HoldMs) * time.Millisecond)
+	for time.Now().Before(deadline) {
+		time.Sleep(20 * time.Millisecond)
+		for id := max; id < total; id++ {
+			if atomic.LoadInt32(&slots[id].entered) != 0 {
+				x.Violation("over-capacity", "a request entered its rule while all %d instances of the pool (%d,%d) had been inside a rule for %v: more than max requests run simultaneously", max, c.PoolMin, c.PoolMax, time.Duration(sl.HoldMs)*time.Millisecond-time.Until(deadline))
+				return
+			}
+			select {
+			case r := <-slots[id].done:
+				x.Violation("slow-waiter-failed", "the request that found all instances busy ended without running its rule: err=%v panic=%q", r.Err, truncate(r.Panic, 200))
+				return
+			default:
+			}
+		}
+	}
+	finish := func(id int, what string) bool {
+		atomic.StoreInt32(&slots[id].release, 1)
+		select {
+		case res := <-slots[id].done:
+			if res.Panic != "" || res.Err != nil || fmt.Sprint(res.Map["hold"]) != fmt.Sprint(id) {
+				x.Violation("slow-result", "%s %d (%s) on a pool that was saturated for %d ms returned err=%v panic=%q result=%v, want its own id", what, id, call.Method, sl.HoldMs, res.Err, truncate(res.Panic, 200), sortedMap(res.Map))
+				return false
+			}
+		case <-time.After(hangBound()):
+			x.Violation("slow-no-return", "%s %d that was let go after %d ms did not return", what, id, sl.HoldMs)
+			return false
+		}
+		return true
+	}
+	for id := 0; id < max; id++ {
+		if !finish(id, "parked request") {
+			return
+		}
+	}
+	// all instances are back: the waiters proceed, in any order, at most max at a time
+	left := map[int]bool{}
+	for id := max; id < total; id++ {
+		left[id] = true
+	}
+	for len(left) > 0 {
+		start, got := time.Now(), -1
+		for got < 0 {
+			for id := max; id < total; id++ {
+				if left[id] && atomic.LoadInt32(&slots[id].entered) != 0 {
+					got = id
+					break
+				}
+			}
+			if got < 0 {
+				if time.Since(start) > hangBound() {
+					x.Violation("slow-waiter-stuck", "%d request(s) that had waited %d ms for an instance of the pool (%d,%d) are still waiting %v after all instances were handed back and no request is inside a rule: a waiter does not proceed", len(left), sl.HoldMs, c.PoolMin, c.PoolMax, hangBound())
+					return
+				}
+				time.Sleep(50 * time.Microsecond)
+			}
+		}
+		delete(left, got)
+		if !finish(got, "waiting request") {
+			return
+		}
+	}
+	// the pool still serves max simultaneous requests
+	for id := total; id < total+max; id++ {
+		go exec(id)
+	}
+	for id := total; id < total+max; id++ {
+		if !c17Await(&slots[id].entered, x) {
+			x.Violation("capacity-lost", "after a saturation of %d ms fewer than max=%d requests can be inside their rule together", sl.HoldMs, max)
+			return
+		}
+	}
+	for id := total; id < total+max; id++ {
+		if !finish(id, "probe request") {
+			return
+		}
+	}
+	if atomic.LoadInt64(&maxIn) > c.PoolMax {
+		x.Violation("over-capacity", "%d requests were inside rules simultaneously on a pool of max %d", maxIn, c.PoolMax)
 	}
 }
 
